@@ -45,6 +45,9 @@ pub(crate) fn field_set(p: &mut Parser) {
         selection(p);
         p.recursion_limit.decrement();
     }
+    if !matches!(p.peek(), None | Some(TokenKind::Eof)) {
+        p.err("expected end of input after the selection set");
+    }
 }
 
 /// See: https://spec.graphql.org/October2021/#Selection
